@@ -3,9 +3,11 @@ module verif/harness
 go 1.13
 
 require (
+	github.com/absolute8511/redcon v0.9.3
 	github.com/siddontang/goredis v0.0.0-20180423163523-0b4019cbd7b7
 	github.com/youzan/ZanRedisDB v0.0.0
 	github.com/youzan/go-zanredisdb v0.6.3
+	google.golang.org/grpc v1.9.2
 )
 
 replace github.com/youzan/ZanRedisDB => /repo
